@@ -390,7 +390,8 @@ def g_reduce(rng):
     se, ses = rng.choice([(None, "n"), (None, "n"), (2, "int:2"), (3, "int:3"), (5, "int:5"), ("dict", "dict"), ("a", "other"), (2.5, "other")])
     if se == "dict":
         good = [a % nd for a in (axes if axes is not None else range(nd)) if -nd <= a < nd]
-        se = {a: rng.randint(2, 3) for a in good}
+        se = {a: rng.choice([0, 1, 2, 2, 3, 3]) for a in good}
+        ses = "dict:" + ",".join(str(se[a]) for a in good) if good else "dict"
 
     def thunk():
         import cubed.array_api as xp
@@ -942,9 +943,6 @@ def classify(build, config, phase, e, params=None):
         for f in fr:
             if f.f_code.co_name == "blockdims_from_blockshape" and 0 in tuple(f.f_locals.get("chunks", ())):
                 return "zero-chunk-size"
-            if f.f_code.co_name == "partial_reduce" and f.f_code.co_filename.endswith("cubed/core/ops.py") \
-                    and 0 in dict(f.f_locals.get("split_every", {})).values():
-                return "split-every-zero"
         return None
     # 4. legacy optimizer: stream-reading successor fused by `fuse`
     if isinstance(e, AttributeError) and phase == "execute" and "has no attribute 'coords'" in msg:
@@ -973,12 +971,6 @@ def classify(build, config, phase, e, params=None):
     msg2 = str(e2)
     shape_err = (isinstance(e2, ValueError) and "could not broadcast" in msg2) or \
                 (isinstance(e2, IndexError) and ("tuple index out of range" in msg2 or "too many indices" in msg2))
-    if qual == "_partial_reduce" and isinstance(e2, IndexError):
-        for f in frames_of(e2):
-            if f.f_code.co_name == "_var_combine" and f.f_locals.get("axis") == ():
-                return "var-zero-dim"
-    if qual == "clip" and isinstance(e2, TypeError) and "a_max" in msg2 and len(cfg.num_input_blocks) == 2:
-        return "clip-min-only"
     if ((isinstance(e2, ValueError) and any(w in msg2 for w in ("broadcast", "shape-mismatch", "mismatch in its core dimension")))
             or (qual == "_read_stack_chunk" and shape_err)) and qual not in ("qr", "_repeat"):  # noqa: E129
         # unify_chunks asked for a rechunk of a zero-size operand, which `_rechunk_plan` skips: blocks stay misaligned
@@ -1216,6 +1208,14 @@ def oracle_regressions(ctx):
         ("done", "repeat-negative-axis", lambda: xp.repeat(arr([2, 4], [1, 1]), 3, axis=-2), np.repeat(np.arange(8).reshape(2, 4), 3, axis=-2)),
         ("done", "repeat-negative-axis", lambda: xp.repeat(arr([4], [2]), 2, axis=-1), np.repeat(np.arange(4), 2)),
         ("refused", "repeat-negative-repeats", lambda: xp.repeat(arr([4], [2]), -1), None),
+        # fix 8c5c994 (clip with only a lower bound), d18946b (var/std of a 0-d array), 6c5075b (split_every dict < 2)
+        ("done", "clip-min-only", lambda: xp.clip(arr([4], [2]), min=1), np.clip(np.arange(4), 1, None)),
+        ("done", "clip-min-only", lambda: xp.clip(arr([4], [2]), min=arr([4], [2])), np.arange(4)),
+        ("done", "var-zero-dim", lambda: xp.var(xp.asarray(np.asarray(3.0), spec=spec())), np.asarray(0.0)),
+        ("done", "var-zero-dim", lambda: xp.std(xp.asarray(np.asarray(3.0), spec=spec())), np.asarray(0.0)),
+        ("refused", "split-every-zero", lambda: xp.sum(arr([6, 4], [2, 2]), axis=0, split_every={0: 0}), None),
+        ("refused", "split-every-zero", lambda: xp.sum(arr([6, 4], [2, 2]), axis=0, split_every={0: 1}), None),
+        ("done", "split-every-zero", lambda: xp.sum(arr([6, 4], [2, 2]), axis=0, split_every={0: 2}), np.arange(24).reshape(6, 4).sum(axis=0)),
     ]
     for want, label, build, expect in more:
         for cname in ("default", "off"):
@@ -1259,12 +1259,9 @@ def witness_corpus():
     return [
         ("legacy-fuse-stream", "simple", lambda: xp.sum(xp.negative(arr([4], [4], "float64"))), {}),
         ("map-blocks-late-contraction", "default", late_contraction, mb),
-        ("clip-min-only", "default", lambda: xp.clip(arr([4], [2]), min=1), {}),
         ("empty-operands-unaligned", "default",
          lambda: xp.add(xp.asarray(np.zeros((4, 0)), chunks=(3, 1), spec=spec()), xp.asarray(np.zeros((4, 0)), chunks=(4, 1), spec=spec())), {}),
-        ("var-zero-dim", "default", lambda: xp.var(xp.asarray(np.asarray(3.0), spec=spec())), {}),
         ("zero-chunk-size", "default", lambda: arr([4], [2]).rechunk((0,)), {}),
-        ("split-every-zero", "default", lambda: xp.sum(arr([6, 4], [2, 2]), axis=0, split_every={0: 0}), {}),
     ]
 
 
